@@ -11,8 +11,10 @@ Mirrors `synkit/CRN/Topo/canon.py` (`CRNCanonicalizer`: `_init_part`, `_sig`, `_
 * A partition is a list of cells, every cell sorted by node id (`sorted(nodes)`, `sorted(sigs[s])`,
   `sorted(rest)`, `sorted(cell)`).  The grouping helpers (`irSplitBy`, `sortNat`, `irTargetCell`,
   `irIndividualise`, `irIsDiscrete`) are those of the sibling model `SynKitModel/NautyIR.lean`.
-* `_init_part`: one sorted cell when there are no node keys, else buckets by the tuple
-  `G.nodes[v].get(a, None)`, in increasing key order.
+* `_init_part`: with no node keys one sorted cell holding every node — and no cell at all for the
+  empty graph (repair F39; one *empty* cell made `_search` raise `StopIteration`) —, else buckets by
+  the tuple `G.nodes[v].get(a, None)`, in increasing key order.  The search is therefore defined on
+  every graph: the empty graph has the single leaf `([], [])`.
 * `_sig(G, v, part)` on a `DiGraph`: `(node attrs, (in_degree, out_degree), #neighbours in each
   cell, sorted tuple of the selected attributes of the out-arcs)`, neighbours = predecessors ∪
   successors (a self-loop makes `v` its own neighbour and counts once in each degree).
@@ -90,9 +92,9 @@ def crnSig (sel : SelD) (G : LGraph) (P : List (List Nat)) (v : Nat) : CrnSig :=
     counts := P.map fun cell => ((crnNbrs G v).filter fun w => cell.contains w).length
     edges := sortBy Canon.Val.ltList ((crnSuccs G v).map fun w => crnEdgeSigKey sel ((G.arc? v w).getD [])) }
 
-/-- `_init_part`. -/
+/-- `_init_part`: `[sorted(G.nodes())] if len(G) else []` without node keys, else the attribute buckets. -/
 def crnInitPart (sel : SelD) (G : LGraph) : List (List Nat) :=
-  if sel.nodeKeys.isEmpty then [sortNat G.ids]
+  if sel.nodeKeys.isEmpty then (if G.ids.isEmpty then [] else [sortNat G.ids])
   else irSplitBy Canon.Val.ltList (fun v => crnNodeKey sel (G.attrs v)) G.ids
 
 /-- What one pass of `_refine` appends for the cell `c`. -/
@@ -263,12 +265,6 @@ def crnOrbitsFromPerms (perms : List (List Nat)) : List (List Nat) :=
 def crnIrOrbits (sel : SelD) (G : LGraph) : List (List Nat) := crnOrbitsFromPerms (crnIrPerms sel G)
 
 /-! ## Hypotheses of the theorems -/
-
-/-- The search is defined: on the empty graph with no node keys `_init_part` returns one empty
-cell and `_search` raises `StopIteration` (`next(...)` finds no cell with more than one node). -/
-def CrnDefined (sel : SelD) (G : LGraph) : Prop := G.ids ≠ [] ∨ sel.nodeKeys ≠ []
-
-instance (sel : SelD) (G : LGraph) : Decidable (CrnDefined sel G) := by unfold CrnDefined; infer_instance
 
 /-- The selected attributes are never `None`, never the empty string (`_label` reads an absent
 attribute as `""`, `_sig` and the closures of the specification read it as `None`) and `order` is
